@@ -121,20 +121,22 @@ def _capacity_and_slices(ctx, py):
     env = {}
     notes = []
     # which expression each of the three size names is bound to
-    binds = {}
+    # the three sizes are identified by WHAT they are bound to, not by their spelling
+    want = {"len(self.trajectory)": n_data, "len(increments)": n_readings, "len(self.lla)": size}
+    roles = {}
     for st in fn.body:
-        if isinstance(st, ast.Assign) and isinstance(st.targets[0], ast.Name):
-            binds[st.targets[0].id] = ast.unparse(st.value)
-    ok_binds = (binds.get("n_data") == "len(self.trajectory)" and binds.get("n_readings") == "len(increments)"
-                and binds.get("size") == "len(self.lla)")
-    ctx.ob("C02.capacity.bindings", "c", ok_binds, "ast", 0.0,
-           "n_data=len(self.trajectory), n_readings=len(increments), size=len(self.lla): %s" % {k: binds.get(k) for k in ("n_data", "n_readings", "size")})
-    env.update(n_data=n_data, n_readings=n_readings, size=size)
+        if isinstance(st, ast.Assign) and isinstance(st.targets[0], ast.Name) and ast.unparse(st.value) in want:
+            env[st.targets[0].id] = want[ast.unparse(st.value)]
+            roles[ast.unparse(st.value)] = st.targets[0].id
+    ok_binds = len(roles) == 3
+    ctx.ob("C02.capacity.bindings", "c", ok_binds, "ast", 0.0, "rows so far, chunk length and buffer length are read as %s" % roles,
+           cex=None if ok_binds else dict(found=roles))
+    skip = set(roles.values())
     size_after = size
     resized = []
     path = z3.BoolVal(True)
     for st in fn.body:
-        if isinstance(st, ast.Assign) and isinstance(st.targets[0], ast.Name) and st.targets[0].id in ("n_data", "n_readings", "size"):
+        if isinstance(st, ast.Assign) and isinstance(st.targets[0], ast.Name) and st.targets[0].id in skip:
             continue
         if isinstance(st, ast.Assign) and isinstance(st.targets[0], ast.Name):
             try:
